@@ -50,8 +50,8 @@ fn keygen(compact: bool, depth: u32, seed: &[u8]) -> Option<(Vec<u8>, Vec<u8>, V
     }, { None })
 }
 
-/// (update succeeded, buffer afterwards, reported period afterwards)
-fn update(compact: bool, depth: u32, buf: &[u8]) -> Option<(bool, Vec<u8>, u32)> {
+/// (update succeeded, buffer afterwards, reported period afterwards, buffer wiped when the key object was dropped)
+fn update(compact: bool, depth: u32, buf: &[u8]) -> Option<(bool, Vec<u8>, u32, bool)> {
     with_kes!(compact, depth, K, S, {
         let mut tmp = buf.to_vec();
         let mut sk = K::from_bytes(&mut tmp).ok()?;
@@ -59,7 +59,8 @@ fn update(compact: bool, depth: u32, buf: &[u8]) -> Option<(bool, Vec<u8>, u32)>
         let out = sk.as_bytes().to_vec();
         let p = sk.get_period();
         drop(sk);
-        Some((r.is_ok(), out, p))
+        let wiped = tmp.iter().all(|b| *b == 0);
+        Some((r.is_ok(), out, p, wiped))
     }, { None })
 }
 
@@ -138,6 +139,7 @@ pub fn generate(g: &mut Gen, mode: Mode) {
                 let others: Vec<u32> = if exhaustive { (0..total).filter(|p| *p != t).collect() }
                     else { let mut v: Vec<u32> = vec![t ^ 1, t ^ (total / 2), (t + 1) % total, total - 1 - t, r.below(total as u64) as u32, r.below(total as u64) as u32]; v.retain(|p| *p != t); v.sort(); v.dedup(); v };
                 for p in others { ops.push(format!("verify {} {} {} @", p, hex(&pk), hex(&msg))); }
+                if r.chance(1, 3) { ops.push(format!("verify {} {} {} @", total + *r.pick(&[0u32, 1, t, total, 1000]), hex(&pk), hex(&msg))); } // out of range: model/code comparison only
                 // wrong message, wrong key, tampered signature byte, truncated signature
                 match r.below(4) {
                     0 => { let mut m2 = msg.clone(); m2.push(1); ops.push(format!("verify {} {} {} @", t, hex(&pk), hex(&m2))); }
@@ -209,8 +211,9 @@ pub fn run_case(case: &Case, out: &mut Out, mode: Mode) {
             "update" => {
                 let b2 = buf.clone();
                 match guard(move || update(compact, depth, &b2)) {
-                    Some(Some((ok, after, p))) => {
+                    Some(Some((ok, after, p, wiped))) => {
                         let total = 1u32 << depth;
+                        if mode == Mode::Erase && !wiped { out.viol(format!("drop-leaves-key-material {}", tag(compact, depth)), "buffer not zeroed when the key object is dropped"); }
                         if mode == Mode::Sign {
                             // evolution fails exactly when the key is at its last period
                             if ok != (updates + 1 < total) { out.viol(format!("update-end-of-life {} period={}", tag(compact, depth), updates), format!("update ok={ok}")); }
